@@ -1,7 +1,10 @@
 //! vx_sets: checks over lance-core / lance-table set, sequence, naming, flag and schema algebra code.
 mod c21;
 mod c21_expr;
+mod c33;
+mod c34;
 mod c37;
+mod c43;
 
 use vcore::{machinery_error, Ctx};
 
@@ -10,7 +13,10 @@ fn main() {
     vcore::quiet_panics();
     let out = match ctx.id.as_str() {
         "C21" => c21::run(&ctx),
+        "C33" => c33::run(&ctx),
+        "C34" => c34::run(&ctx),
         "C37" => c37::run(&ctx),
+        "C43" => c43::run(&ctx),
         other => machinery_error(&format!("vx_sets does not implement {other}")),
     };
     vcore::finish(&ctx, out);
